@@ -14,6 +14,7 @@ monitor:        (a) all permutations of a document give the same canonical view 
 from __future__ import annotations
 
 import copy
+import random
 import itertools
 import json
 import math
@@ -209,20 +210,36 @@ def build_doc(rng, base: L.Base, sites, shared=False):
     return instrs
 
 
-def inject_findp(rng, base: L.Base, doc, nid0=10900):
-    """promise inside !find: K (declares pK) and C (super: !promise pK) in one list of one instruction,
-    D elsewhere with type: !find {_type: Class, super: !promise pK}"""
+def inject_findp(rng, base: L.Base, doc, nid0=10900, all_uses=False):
+    """forward `!promise` references inside find-directives: as attribute value, as instruction parent and
+    in a sync `find`. One instruction declares K, C (super: !promise K) — in this order, in one list — and the
+    host classes D1, D3; the using instructions go anywhere in the document."""
     dp = base.root_id("dp")
-    k, c, pk, d, pr = nid0, nid0 + 1, nid0 + 2, nid0 + 3, nid0 + 4
-    doc = doc + [
-        {"parent": {"u": dp}, "ext": [["packages", [{"nid": pk, "scal": [["name", {"s": f"n{pk}"}]], "kids": [["classes", [
-            {"nid": k, "pid": f"p{k}", "scal": [["name", {"s": f"n{k}"}]]},
-            {"nid": c, "scal": [["name", {"s": f"n{c}"}], ["super", {"p": f"p{k}"}]]}]]]}]]]},
-        {"parent": {"u": dp}, "ext": [["packages", [{"nid": d, "scal": [["name", {"s": f"n{d}"}]], "kids": [["classes", [
-            {"nid": pr + 1, "scal": [["name", {"s": f"n{pr + 1}"}]], "kids": [["owned_properties", [
-                {"nid": pr, "scal": [["name", {"s": f"n{pr}"}],
-                                     ["type", {"f": {"ty": "Class", "keys": [["super", {"p": f"p{k}"}]]}}]]}]]]}]]]}]]]},
-    ]
+    n = itertools.count(nid0)
+    pk, k, c, d1, d3 = (next(n) for _ in range(5))
+    nm = lambda i: {"s": f"n{i}"}  # noqa: E731
+    decl_ins = {"parent": {"u": dp}, "ext": [["packages", [{"nid": pk, "scal": [["name", nm(pk)]], "kids": [["classes", [
+        {"nid": k, "pid": f"p{k}", "scal": [["name", nm(k)]]},
+        {"nid": c, "scal": [["name", nm(c)], ["super", {"p": f"p{k}"}]]},
+        {"nid": d1, "pid": f"p{d1}", "scal": [["name", nm(d1)]]},
+        {"nid": d3, "pid": f"p{d3}", "scal": [["name", nm(d3)]]}]]]}]]]}
+    find_c = {"f": {"ty": "Class", "keys": [["super", {"p": f"p{k}"}]]}}
+    uses = []
+    a, b, e = next(n), next(n), next(n)
+    # (1) as attribute value
+    uses.append({"parent": {"p": f"p{d1}"}, "ext": [["owned_properties", [
+        {"nid": a, "scal": [["name", nm(a)], ["type", find_c]]}]]]})
+    # (2) as parent of an instruction
+    keys2 = [["name", nm(c)], ["super", {"p": f"p{k}"}]]
+    rng.shuffle(keys2)
+    uses.append({"parent": {"f": {"ty": "Class", "keys": keys2}},
+                 "ext": [["owned_properties", [{"nid": b, "scal": [["name", nm(b)]]}]]],
+                 "set": [["description", {"v": {"s": "touched"}}]]})
+    # (3) in the find of a sync entry
+    uses.append({"parent": {"p": f"p{d3}"}, "sync": [["owned_properties", [
+        {"nid": e, "nid2": e + 50, "keys": [["name", nm(e)], ["type", {"p": f"p{k}"}]]}]]]})
+    rng.shuffle(uses)
+    doc = doc + [decl_ins] + (uses if all_uses else uses[: rng.randint(1, 3)])
     rng.shuffle(doc)
     return doc
 
@@ -620,7 +637,7 @@ def run_doc(ctx, out, base: L.Base, doc, flavour, perms, req, pending):
     errs = [(p, iv) for p, st, _, iv in results if st != "ok"]
     if flavour == "ops":
         return results
-    if oks and errs and not shared:
+    if oks and errs:  # an order that raises where another succeeds is a violation whatever the lists
         out.find("apply|order-dependent|error",
                  f"{base.key}: order {list(oks[0][0])} succeeds, order {list(errs[0][0])} raises {errs[0][1]}",
                  {"model": base.key, "doc": doc, "order": list(errs[0][0]), "order_ok": list(oks[0][0]), "flavour": flavour,
@@ -718,6 +735,7 @@ def run(ctx: Ctx) -> Outcome:
         do(base, subst_roots(WITNESS, base), "plain")
         do(base, subst_roots(WITNESS2, base), "plain")
         do(base, subst_roots(WITNESS3, base), "plain")
+        do(base, inject_findp(random.Random(7), base, [], all_uses=True), "findp")
     # past disagreements (corpus), in their recorded orders
     for f in sorted((common.VERIF / "corpus" / "C12").glob("*.json")):
         c = json.loads(f.read_text())
@@ -744,7 +762,7 @@ def run(ctx: Ctx) -> Outcome:
         elif f < 0.90:
             doc, flavour = gen_setlist_doc(rng, base), "ops"
         elif f < 0.95:
-            doc, flavour = inject_findp(rng, base, build_doc(rng, base, gen_sites(rng, base, rng.randint(0, 2)))), "findp"
+            doc, flavour = inject_findp(rng, base, build_doc(rng, base, gen_sites(rng, base, rng.randint(0, 1)))), "findp"
         else:
             doc, flavour = gen_ops_doc(rng, base), "ops"
         if len(doc) > 5 and key != "empty52":
